@@ -21,7 +21,7 @@
 //	state  : projection compared with the abstract model (mode d; "-" otherwise), see verifUdpState
 //	events : what the implementation did in abstract terms (the model's nondeterministic inputs):
 //	         S src,dst,hex  message submitted          A snd,rcv,prefix,from-to,set  acks applied by sender snd
-//	         C src,dst,sizes one message sliced        W id,src,dst,first,count  datagram put on the wire
+//	         C src,dst,sizes one message sliced        W id,src,dst,first,count,payload-digests  datagram put on the wire
 //	         R id / L id / D id,newid  datagram delivered / lost / duplicated
 //	info   : data for the oracle (settle line): sent and received messages per connection, acked-prefix traces,
 //	         memory high-water marks (with the loss predicted by the mechanism of finding F14 at every reset),
@@ -41,6 +41,7 @@ import (
 	"testing"
 	"time"
 
+	"github.com/VKCOM/tl/internal/vkgo/pkg/basictl"
 	"github.com/VKCOM/tl/pkg/rpc/internal/gen/tlnetUdpPacket"
 )
 
@@ -82,12 +83,28 @@ type verifUdpRunT struct {
 	// messages submitted by the flush phase (after the restarts have settled): these must be delivered
 	flushSent []string
 	inFlush   bool
+	// rolling hash of the contents handed to the handler, per connection (part of the compared projection)
+	roll map[[2]int]uint32
 }
 
 func verifUdpFnv(s string) uint32 {
 	h := uint32(2166136261)
 	for i := 0; i < len(s); i++ {
 		h ^= uint32(s[i])
+		h *= 16777619
+	}
+	return h
+}
+
+// roll' = fnv32(4 bytes of roll, little endian, followed by the message)
+func verifUdpRoll(roll uint32, m []byte) uint32 {
+	h := uint32(2166136261)
+	for i := 0; i < 4; i++ {
+		h ^= (roll >> (8 * uint(i))) & 0xff
+		h *= 16777619
+	}
+	for _, b := range m {
+		h ^= uint32(b)
 		h *= 16777619
 	}
 	return h
@@ -102,6 +119,7 @@ func (r *verifUdpRunT) handler(src, dst int) MessageHandler {
 	return func(message *[]byte, canSave bool) {
 		k := [2]int{src, dst}
 		r.recv[k] = append(r.recv[k], string(*message))
+		r.roll[k] = verifUdpRoll(r.roll[k], *message)
 		if canSave {
 			if r.inLive[message] {
 				delete(r.inLive, message)
@@ -118,7 +136,7 @@ func verifUdpNew(mode byte, seed uint64) *verifUdpRunT {
 	r := &verifUdpRunT{
 		mode: mode, restarts: mode == 'r', stream: mode != 'x', seed: seed,
 		sent: map[[2]int][]string{}, recv: map[[2]int][]string{}, traces: map[*Connection]*verifUdpTrace{},
-		inLive: map[*[]byte]bool{}, outLive: map[*[]byte]bool{},
+		inLive: map[*[]byte]bool{}, outLive: map[*[]byte]bool{}, roll: map[[2]int]uint32{},
 	}
 	fctx := &FuzzTransportContext{
 		sentMessages:     make(map[RandomMessage]int),
@@ -372,16 +390,69 @@ func (r *verifUdpRunT) stepW(tId int) {
 		r.nextID++
 		r.ids[d] = append(r.ids[d], id)
 		first, count := uint32(0), uint32(0)
-		// the plaintext of the datagram just built is still in writeBufferToEncrypt: encrypted header first
+		payloads := "-"
+		// the plaintext of the datagram just built is still in writeBufferToEncrypt: encrypted header, then the chunk
+		// payloads (each preceded by its length when there are several), zero padding, copy of the unencrypted header
 		var enc tlnetUdpPacket.EncHeader
-		if _, err := enc.ReadTL1(t.writeBufferToEncrypt); err != nil {
+		rest, err := enc.ReadTL1(t.writeBufferToEncrypt)
+		if err != nil {
 			r.emit("X-cannot-parse-enc-header")
 		} else if enc.IsSetPacketsFrom() {
 			first, count = enc.PacketsFrom, enc.PacketsCount
 		} else if enc.IsSetPacketNum() && enc.PacketNum != ^uint32(0) {
 			first, count = enc.PacketNum, 1
 		}
-		r.emit("W%d,%d,%d,%d,%d", id, tId, d, first, count)
+		if count > 0 {
+			// what travels under the labels first..first+count-1: digests of the payload bytes on the wire, to be
+			// compared with the model's chunk table (the datagram's seq labels must be the chunks' seq numbers)
+			var unenc tlnetUdpPacket.UnencHeader
+			dg := fctx.network[d][len(fctx.network[d])-1].datagram
+			tail := 0
+			if _, err := unenc.ReadTL1Boxed(dg); err != nil {
+				r.emit("X-cannot-parse-unenc-header")
+			} else {
+				tail = encryptedUnencHeaderSize(unenc)
+			}
+			if enc.IsSetZeroPadding1Byte() {
+				tail += 1
+			}
+			if enc.IsSetZeroPadding2Bytes() {
+				tail += 2
+			}
+			if enc.IsSetZeroPadding4Bytes() {
+				tail += 4
+			}
+			if enc.IsSetZeroPadding8Bytes() {
+				tail += 8
+			}
+			var ds []string
+			if tail > len(rest) {
+				r.emit("X-datagram-shorter-than-its-trailer")
+			} else {
+				body := rest[:len(rest)-tail]
+				if count == 1 {
+					ds = append(ds, verifUdpDigest(string(body)))
+				} else {
+					for i := uint32(0); i < count; i++ {
+						var sz uint32
+						var e2 error
+						if body, e2 = basictl.NatRead(body, &sz); e2 != nil || int(sz) > len(body) {
+							r.emit("X-datagram-part-truncated")
+							break
+						}
+						ds = append(ds, verifUdpDigest(string(body[:sz])))
+						body = body[sz:]
+					}
+					if len(body) != 0 {
+						r.emit("X-datagram-has-trailing-bytes")
+					}
+				}
+			}
+			if len(ds) > 0 {
+				payloads = strings.Join(ds, "/")
+			}
+		}
+		r.emit("W%d,%d,%d,%d,%d,%s", id, tId, d, first, count, payloads)
 	}
 	r.observe()
 }
@@ -626,7 +697,8 @@ func (r *verifUdpRunT) state(tId int) string {
 			sb.WriteByte(',')
 		}
 		n++
-		fmt.Fprintf(&sb, "%d:%d:%d:%d", verifUdpPeer(c), c.incoming.ackPrefix, c.incoming.messagesTotalOffset, nd)
+		fmt.Fprintf(&sb, "%d:%d:%d:%d:%08x", verifUdpPeer(c), c.incoming.ackPrefix, c.incoming.messagesTotalOffset, nd,
+			r.roll[[2]int{verifUdpPeer(c), tId}])
 	}
 	if n == 0 {
 		sb.WriteByte('-')
